@@ -26,6 +26,8 @@ def load_prop(prop):
   from . import generic
   from .props import RuleSpec
   generic.ensure(prop, REGISTRY, RuleSpec)
+  from . import diffrules
+  diffrules.ensure(prop, REGISTRY, RuleSpec)
   specs = REGISTRY.get(prop)
   if not specs:
     raise AnalysisError('no rules registered for %s' % prop)
